@@ -35,8 +35,9 @@ def fresh_lazy_class(depth=0):
 
 
 class Controller:
-    def __init__(self, nthreads):
+    def __init__(self, nthreads, region='promotion'):
         self.n = nthreads
+        self.region = region
         self.go = [threading.Semaphore(0) for _ in range(nthreads)]
         self.yielded = threading.Semaphore(0)
         self.done = [False] * nthreads
@@ -63,16 +64,22 @@ class Controller:
                     self.executed.append((i, frame.f_lineno))
             return local
 
+        visit_code = sys.modules['prettyprinter.prettyprinter']._run_pretty.__code__
+
         def glob(frame, event, arg):
-            if event == 'call' and (frame.f_code is code or (
-                    frame.f_code.co_name == 'decorator' and frame.f_code.co_filename == rp_file)):
+            if event != 'call':
+                return None
+            if self.region == 'visit':
+                return local if frame.f_code is visit_code else None
+            if frame.f_code is code or (
+                    frame.f_code.co_name == 'decorator' and frame.f_code.co_filename == rp_file):
                 return local
             return None
         return glob
 
     def worker(self, i, fn):
-        sys.settrace(self.tracer(i))
         try:
+            sys.settrace(self.tracer(i))
             with warnings.catch_warnings(record=True) as ws:
                 warnings.simplefilter('always')
                 try:
@@ -98,7 +105,8 @@ class Controller:
                 ths[tid].start()
             else:
                 self.go[tid].release()
-            self.yielded.acquire()          # until it reaches its next traced line or finishes
+            if not self.yielded.acquire(timeout=120):   # until it reaches its next traced line or finishes
+                raise RuntimeError('scheduler stuck: thread %d neither reached a traced line nor finished' % tid)
             used.append(tid)
         # drain: remaining threads one after the other
         self.free_run = True
@@ -122,6 +130,29 @@ def run_schedule(nthreads, schedule, depth=0, cfg=None):
     results, used = ctl.run(fns, schedule)
     ref = ['sched.%s(%d)' % (cls.__qualname__, i) for i in range(nthreads)]
     return results, ref, ctl.executed
+
+
+def shared_values(nthreads):
+    """values printed by the threads that SHARE sub-objects (same identity reachable from each)"""
+    inner = [1, [2, 3]]
+    shared = {'first': inner, 'second': (1, 2)}
+    vals = []
+    for i in range(nthreads):
+        vals.append([shared, inner] if i % 3 == 0 else ({'k%d' % i: shared, 'own': [i]} if i % 3 == 1 else shared))
+    return vals
+
+
+def run_shared(nthreads, schedule, cfgs=None):
+    """threads print values sharing sub-objects, gated on the line events of _run_pretty (where a
+    value's visit starts and ends) -> (results, sequential reference texts)"""
+    from prettyprinter import pformat
+    vals = shared_values(nthreads)
+    cfgs = cfgs or [{}] * nthreads
+    ref = [pformat(v, **c) for v, c in zip(vals, cfgs)]
+    ctl = Controller(nthreads, region='visit')
+    fns = [(lambda v=v, c=c: pformat(v, **c)) for v, c in zip(vals, cfgs)]
+    results, used = ctl.run(fns, schedule)
+    return results, ref
 
 
 def bounded_schedules(nthreads, max_run, switches):
